@@ -20,6 +20,16 @@ CHECKS = {
         technique='exhaustive enumeration of a subclass family (plain / __repr__+__str__ overriding / IntEnum) of the nine built-in bases x per-base value alphabets x nine placements x every width 1..L+3; output evaluated and compared with class-aware typed equality',
         text='Every instance of the generated subclass family is printed at top level, next to a 30-column sibling, after short and long dict keys, as call argument, dict key and set element, at every width from 1 to its one-line length + 3; evaluation must give back the same subclass around an equal base value. The failing regions need a coincidence (too wide for the rest of the line yet fitting a line of its own; a subclass overriding __repr__) that only a full width sweep next to fixed-length siblings reaches.',
         note='trusted: CPython eval, typed_eq/canon in mc/oracles.py; subclass families and value alphabets are small by design'),
+    'C10': dict(
+        category='exploration', design_ref='DESIGN.md 4/C10',
+        technique='exhaustive enumeration of container trees (10 kinds, lengths 0..5, three levels) x N in {1..5, None, 10**6} x widths x key sorting; output evaluated against a reference truncation and every truncation notice attributed to its container through AST spans',
+        text='Every container tree of the generator is printed with every N; the evaluated output must be typed-equal to the reference truncation (first min(len, N) elements in iteration order at every level), each notice must sit in exactly the container that was longer than N and state len - N, and max_seq_len=None must equal a limit larger than every container without any warning. Nested truncation, exact counts and the documented None value are for-all statements no pinned test touches.',
+        note='trusted: CPython ast spans and eval; reference truncation of about 15 lines; lengths > 5 only through the 150/151/1000/1001 families'),
+    'C11': dict(
+        category='exploration', design_ref='DESIGN.md 4/C11',
+        technique='exhaustive enumeration of labelled ordered trees (all shapes <= n nodes x all container-kind assignments, unique scalar leaves) x every depth 0..height+3 and None; expected AST built by cutting the unlimited AST at the reference nesting level',
+        text='For every tree shape up to the node bound and every assignment of 14 container kinds (built-ins, dicts with int/str/bytes/tuple keys, subclasses, a pretty_call user type with and without a hugged argument) the output at every depth is compared, as an AST, with the unlimited output cut at the reference level; above the height the text must equal depth=None. No test passes depth at all.',
+        note='trusted: reference level computation (the hugged sole argument keeps its call level, per the anchors); str/bytes dict keys are cut one level late - recorded as known finding C11/str-key-one-level-late and tolerated only in exactly that form'),
     'C04': dict(
         category='model_checking', design_ref='DESIGN.md 4/C04',
         technique='explicit enumeration of all document terms <= K nodes x all (width, ribbon) pairs x both strategies on the real engine; membership of each observed SDoc stream in the fully enumerated layout set of the reference semantics',
